@@ -9,7 +9,8 @@ import (
 type UVal struct {
 	K    string   `json:"k"` // operand plus minus if_not_exists list_append
 	O    *Operand `json:"o,omitempty"`
-	A, B *UVal    `json:"a,omitempty"`
+	A    *UVal    `json:"a,omitempty"`
+	B    *UVal    `json:"b,omitempty"`
 	P    *Operand `json:"p,omitempty"`
 }
 
